@@ -97,23 +97,28 @@ def assemble(src, arch="x86_64", ext=".s", extra=()):
 
 
 def pmap(func, items, procs=None, chunksize=None):
-    """Ordered parallel map over a list using processes."""
+    """Ordered parallel map over a list using processes. A worker that dies (killed, out of memory)
+    is a machinery error (exit 2), never a hang."""
+    import concurrent.futures
+    from concurrent.futures.process import BrokenProcessPool
     items = list(items)
     procs = procs or NPROC
     if procs <= 1 or len(items) <= 1:
         return [func(i) for i in items]
     if chunksize is None:
         chunksize = max(1, min(64, len(items) // (procs * 8)))
-    with multiprocessing.Pool(procs) as pool:
-        return pool.map(func, items, chunksize=chunksize)
+    ctx = multiprocessing.get_context("fork")
+    try:
+        with concurrent.futures.ProcessPoolExecutor(procs, mp_context=ctx) as ex:
+            return list(ex.map(func, items, chunksize=chunksize))
+    except BrokenProcessPool:
+        print("MACHINERY: a worker process of the parallel map died", file=sys.stderr)
+        sys.exit(EXIT_MACHINERY)
 
 
 def pmap_unordered(func, items, procs=None, chunksize=1):
-    items = list(items)
-    procs = procs or NPROC
-    with multiprocessing.Pool(procs) as pool:
-        for r in pool.imap_unordered(func, items, chunksize=chunksize):
-            yield r
+    for r in pmap(func, items, procs=procs, chunksize=chunksize):
+        yield r
 
 
 # ---------------------------------------------------------------------------------------------
